@@ -60,7 +60,7 @@ def start(world, config):
 
 
 # ---------------------------------------------------------------------------
-def _mkspec(rng, fmt):
+def _mkspec(rng, fmt, wide=False):
     sdate = rng.choice([2002154, 2003365, 2004059, 2004366, 1995001, 2011120, 1999365])
     stime = rng.choice([0, 1, 12, 22, 23])
     base = {'nx': rng.randrange(1, 6), 'ny': rng.randrange(1, 6),
@@ -89,6 +89,12 @@ def _mkspec(rng, fmt):
             base['nt'] = rng.randrange(2, 5)
         if fmt == 'wind' and rng.random() < 0.3:
             base['nostagger'] = True       # older flavour: 8-byte time records
+    if wide and fmt not in ('bpch', 'landuse') and rng.random() < 0.15:
+        # a production-sized horizontal grid: one step is tens of kilobytes, so a
+        # cut a few bytes off a step boundary is a relative error of 1e-4 or less
+        # in (size - header) / step - where a tolerant or rounded step count shows
+        base['nx'] = rng.randrange(40, 70)
+        base['ny'] = rng.randrange(40, 70)
     return base
 
 
@@ -506,7 +512,8 @@ def gen_op(rng, st):
     c = st.c
     if st.file is None and st.todo is None:
         st.todo = 'cuts'
-        return {'op': 'mkfile', 'fmt': c['format'], 'spec': _mkspec(rng, c['format'])}
+        return {'op': 'mkfile', 'fmt': c['format'],
+                'spec': _mkspec(rng, c['format'], wide=not c['exhaustive'])}
     if st.todo == 'cuts':
         st.todo = 'done'
         f = st.file
